@@ -8,6 +8,7 @@
 
 mod c08;
 mod c10;
+mod c16;
 mod procworld;
 mod driver;
 mod gen;
@@ -24,11 +25,12 @@ fn property(id: &str) -> Option<Box<dyn Property>> {
     match id {
         "C08" => Some(Box::new(c08::C08)),
         "C10" => Some(Box::new(c10::C10)),
+        "C16" => Some(Box::new(c16::C16)),
         _ => None,
     }
 }
 
-const ALL: &[&str] = &["C08", "C10"];
+const ALL: &[&str] = &["C08", "C10", "C16"];
 
 fn main() {
     c08::install_quiet_panic_hook();
